@@ -148,7 +148,7 @@ def eval_multi(kind, cfg, g):
 
 
 def plan(ctx):
-    out = [("S2", "K0"), ("P2", "K0"), ("T3", "K0"), ("T4", "K0"), ("P3", "K0")]
+    out = [("S2", "K0"), ("S2F", "K0"), ("S2F", "K1"), ("P2", "K0"), ("T3", "K0"), ("T4", "K0"), ("P3", "K0")]
     for K in ("K1", "K2", "K3", "K4", "K9", "K10"):
         out += [("S2", K), ("T3|V6", K)]
     out += [("S2", "K5"), ("P2", "K5"), ("T3|V6", "K5")]  # limit_sigma in force: the clamp must not touch mu
@@ -159,7 +159,7 @@ def plan(ctx):
     return out
 
 
-PARTS = {"S2": 4, "P2": 8, "P3": 8, "T3": 12, "T4": 48, "T3|V6": 2, "T5": 128, "T4|V4": 8}
+PARTS = {"S2F": 2, "S2": 4, "P2": 8, "P3": 8, "T3": 12, "T4": 48, "T3|V6": 2, "T5": 128, "T4|V4": 8}
 
 
 def units(ctx):
